@@ -210,7 +210,7 @@ def case_alu(case):
         steps = z3.IntVal(1)
         for b in pats[0][0]:
             steps = steps * sym.zint(b)
-        if "loop_bound_alu" in vals:
+        if "loop_bound_alu" in vals and used_dims[0] <= 2:
             E.oblige("loop_count:equals_number_of_stream_steps", z3.BV2Int(vals["loop_bound_alu"], False) == steps,
                      dict(temporal_dims_used=used_dims[0]))
         E.oblige("launch:fields", z3.BoolVal(launch is not None and tuple(launch.param_names.data[i].data for i in range(len(launch.param_names.data))) == tuple(acc.launch_fields)))
@@ -466,7 +466,11 @@ def case_hwpe(case):
 
 
 def run(chk):
+    from .. import runner
+
     quick = chk.tier == "quick"
+    if quick:
+        runner.CASE_TIMEOUT_S = min(runner.CASE_TIMEOUT_S, 40)
     only = getattr(chk, "only", None)
     rnd = random.Random(chk.seed)
     chk.functions = ["snaxc.accelerators.snax.SNAXStreamer._generate_streamer_setup_vals / get_streamer_setup_fields",
@@ -496,8 +500,9 @@ def run(chk):
         for k in range(ns):
             nt = rnd.randint(1, 3 if quick else 6)
             desc.append(("w" if k == ns - 1 else "r", "".join(rnd.choice("nnir") for _ in range(nt)), rnd.randint(1, 2), rnd.choice(optsets)))
-        forks = sum(d[1].count("r") for d in desc) + sum(d[2] for d in desc if "b" in d[3])
-        if forks > (3 if quick else 7):
+        # estimated paths: 3 outcomes per reuse dim, 2 per spatial stride (`stride == 0 and ...` forks on every one)
+        est = 3 ** sum(d[1].count("r") for d in desc) * 2 ** sum(d[2] for d in desc)
+        if est > (100 if quick else 1200):
             continue
         used = tuple(rnd.randint(0 if len(d[1]) > 1 else 1, len(d[1])) for d in desc)
         used = (max(1, used[0]),) + used[1:]
